@@ -667,14 +667,73 @@ pub async fn run_peer_initiated() {
     if sim::op("client application", app_done.take()).await.is_none() {
         return;
     }
-    let r1 = match sim::op("session end", session.end()).await {
-        Some(r) => format!("{:?}", r),
-        None => return,
+    // the teardown calls: awaited, or the non-blocking variants polled until they yield the result
+    let polled = choice(3) == 0;
+    sim::append_config(&format!(" teardown-polled={}", polled));
+    let r1 = if polled {
+        use fe2o3_amqp::session::TryEndError;
+        let poll = async {
+            loop {
+                match session.try_end() {
+                    Ok(r) => return format!("{:?}", r),
+                    Err(TryEndError::RemoteEndNotReceived) => sim::sleep_ms(10).await,
+                    Err(TryEndError::AlreadyEnded) => return "Err(AlreadyEnded)".to_string(),
+                }
+            }
+        };
+        match sim::op("session try_end polled", poll).await {
+            Some(r) => r,
+            None => return,
+        }
+    } else {
+        match sim::op("session end", session.end()).await {
+            Some(r) => format!("{:?}", r),
+            None => return,
+        }
     };
-    let r2 = match sim::op("connection close", client.close()).await {
-        Some(r) => format!("{:?}", r),
-        None => return,
+    let r2 = if polled {
+        use fe2o3_amqp::connection::TryCloseError;
+        let poll = async {
+            loop {
+                match client.try_close() {
+                    Ok(r) => return format!("{:?}", r),
+                    Err(TryCloseError::RemoteCloseNotReceived) => sim::sleep_ms(10).await,
+                    Err(TryCloseError::AlreadyClosed) => return "Err(AlreadyClosed)".to_string(),
+                }
+            }
+        };
+        match sim::op("connection try_close polled", poll).await {
+            Some(r) => r,
+            None => return,
+        }
+    } else {
+        match sim::op("connection close", client.close()).await {
+            Some(r) => format!("{:?}", r),
+            None => return,
+        }
     };
+    // the handles are spent: whatever teardown call follows on them returns at once (an error is
+    // fine, a hang or a panic is not)
+    for _ in 0..(1 + choice(3)) {
+        let done = match choice(6) {
+            0 => sim::op("connection close on a spent handle", client.close()).await.map(|_| ()),
+            1 => sim::op("connection on_close on a spent handle", client.on_close()).await.map(|_| ()),
+            2 => {
+                let _ = client.try_close();
+                Some(())
+            }
+            3 => sim::op("session end on a spent handle", session.end()).await.map(|_| ()),
+            4 => sim::op("session on_end on a spent handle", session.on_end()).await.map(|_| ()),
+            _ => {
+                let _ = session.try_end();
+                Some(())
+            }
+        };
+        if done.is_none() {
+            return;
+        }
+        sim::probe("teardown-call-on-a-spent-handle-returned");
+    }
     if sim::op("peer script", peer_done.take()).await.is_none() {
         return;
     }
